@@ -165,6 +165,8 @@ class DocSim:
         self.init = frozenset([(self.entry["SourceFile"], ())])
         self._memo = {}
         self._exits = {v: k for k, v in self.exit.items()}
+        self._expect = {}        # configs -> rules that wait for a terminal there
+        self._via = {}           # (configs, token) -> rules whose terminal matched the token
 
     def _new(self, rule):
         self.n += 1
@@ -263,8 +265,10 @@ class DocSim:
                 if lab is None:
                     st.append((q2, stack))
                 elif lab[0] == "t":
+                    self._expect.setdefault(configs, set()).add(self.names[q])
                     for t in lab[1]:
                         out.setdefault(t, set()).add((q2, stack))
+                        self._via.setdefault((configs, t), set()).add(self.names[q])
                 else:
                     if len(stack) < self.max_depth:
                         st.append((self.entry[lab[1]], stack + (q2,)))
@@ -279,6 +283,17 @@ class DocSim:
         if t == "Eof":
             return frozenset(), acc
         return out.get(t, frozenset()), acc
+
+    def inner_rules(self, configs):
+        return sorted({self.names[q] for (q, stack) in configs})
+
+    def expecting(self, configs):
+        self.expand(configs)
+        return sorted(self._expect.get(configs, ()))
+
+    def via(self, configs, t):
+        self.expand(configs)
+        return sorted(self._via.get((configs, t), ()))
 
     def open_rules(self, configs):
         ks = set()
@@ -364,10 +379,12 @@ class Explorer:
                 continue        # the documented side was cut at the nesting bound here: nothing to compare
             if cacc and not lacc:
                 diffs.append({"direction": "code-only", "prefix": list(w), "token": "<end>", "completion": [],
-                              "code_stack": self._stack(cs), "doc_rules": sorted(self.doc.open_rules(ls[0]))})
+                              "code_stack": self._stack(cs), "doc_rules": sorted(self.doc.open_rules(ls[0])),
+                              "doc_inner": self.doc.inner_rules(ls[0]), "doc_expecting": self.doc.expecting(ls[0])})
             if sacc and not cacc:
                 diffs.append({"direction": "doc-only", "prefix": list(w), "token": "<end>", "completion": [],
-                              "code_stack": self._stack(cs), "doc_rules": sorted(self.doc.open_rules(ss))})
+                              "code_stack": self._stack(cs), "doc_rules": sorted(self.doc.open_rules(ss)),
+                              "doc_inner": self.doc.inner_rules(ss), "doc_via": ["<end>"]})
             if len(w) >= self.bound:
                 continue
             for t in sorted(set(cout) | set(sout) | set(lout)):
@@ -382,13 +399,15 @@ class Explorer:
                     comp = self.complete("code", c2, completion_budget)
                     if comp is not None:
                         diffs.append({"direction": "code-only", "prefix": list(w), "token": t, "completion": comp,
-                                      "code_stack": self._stack(c2), "doc_rules": sorted(self.doc.open_rules(ls[0]))})
+                                      "code_stack": self._stack(c2), "doc_rules": sorted(self.doc.open_rules(ls[0])),
+                                      "doc_inner": self.doc.inner_rules(ls[0]), "doc_expecting": self.doc.expecting(ls[0])})
                     continue
                 if s2 and not c2:
                     comp = self.complete("doc", s2, completion_budget)
                     if comp is not None:
                         diffs.append({"direction": "doc-only", "prefix": list(w), "token": t, "completion": comp,
-                                      "code_stack": self._stack(cs), "doc_rules": sorted(self.doc.open_rules(s2))})
+                                      "code_stack": self._stack(cs), "doc_rules": sorted(self.doc.open_rules(s2)),
+                                      "doc_inner": self.doc.inner_rules(ss), "doc_via": self.doc.via(ss, t)})
                 if c2:
                     n = (c2, s2 or frozenset(), l2 or empty_l)
                     if n not in seen:
